@@ -468,8 +468,9 @@ over (generator state, position) that is closed under `Next` and `split`:
 * `Next` (from `start` or from a patch) produces a patch lying after the current one, and no key in
   between is changed from `B` to `X` (no change is lost; when nothing follows, nothing after the
   current patch is changed);
-* `split` of a range patch produces a patch whose interval starts inside the split one, and no key of
-  the split interval before it is changed. -/
+* `split` of a range patch produces a patch that does not start before the split one, and no key from
+  the start of the split interval up to the new patch (or to the end of the map, when nothing follows —
+  "split … could even return EOF") is changed. -/
 structure GenSound (cmp : Bytes → Bytes → Ordering) (fuel : Nat) (B X : List KV)
     (Inv : PG → GenPos → Prop) : Prop where
   cur : ∀ d p t, Inv d (.at p t) → PatchOK cmp p ∧
@@ -482,8 +483,163 @@ structure GenSound (cmp : Bytes → Bytes → Ordering) (fuel : Nat) (B X : List
       changeOf (lookupKV cmp k B) (lookupKV cmp k X) = none)
   split : ∀ d p t d' c', Inv d (.at p t) → p.level ≠ 0 → pgSplit cmp fuel d = .ok (d', c') →
     Inv d' (GenPos.ofResult c') ∧
-    (∀ k, p.covers cmp k = true → (∀ p' t', c' = some (p', t') → startsAfter cmp p' k) →
+    (∀ p' t', c' = some (p', t') → ∀ k, startsAfter cmp p k → startsAfter cmp p' k) ∧
+    (∀ k, ¬ startsAfter cmp p k → (∀ p' t', c' = some (p', t') → startsAfter cmp p' k) →
       changeOf (lookupKV cmp k B) (lookupKV cmp k X) = none)
+
+/-- in a strictly ascending event list, a key strictly between an element and its successor (or beyond the
+last, or before the first) is the key of no element -/
+theorem no_event_between {cmp : Bytes → Bytes → Ordering} (ol : OrdLaws cmp) {pre rest : List Event} {k : Bytes}
+    (ha : AscE cmp (pre ++ rest)) (hpre : ∀ e ∈ pre, cmp e.key k = .lt) (hrest : ∀ e ∈ rest.head?, cmp k e.key = .lt) :
+    ∀ ev ∈ pre ++ rest, cmp k ev.key ≠ .eq := by
+  intro ev hev he
+  rcases List.mem_append.mp hev with h | h
+  · have := hpre ev h; rw [ol.eq_symm he] at this; simp at this
+  · cases rest with
+    | nil => simp at h
+    | cons r rs =>
+      have hr : cmp k r.key = .lt := hrest r (by simp)
+      simp at h
+      rcases h with rfl | h
+      · rw [hr] at he; simp at he
+      · have hasc := (List.pairwise_append.mp ha).2.1
+        have := ol.lt_trans _ _ _ hr ((List.pairwise_cons.mp hasc).1 ev h)
+        rw [this] at he; simp at he
+
+/-- **R1 for the leaf-patch-only generator, through the `GenSound` interface** (proved): for sorted
+single-leaf `base`, `x` the generator built by `PatchGeneratorFromRoots` has a sound invariant — so the
+interface is satisfiable and R1 is settled wherever only point patches occur. -/
+theorem R1_leaf {cmp : Bytes → Bytes → Ordering} (ol : OrdLaws cmp) (fuel : Nat) (kb kx : List KV)
+    (sb : Sorted cmp kb) (sx : Sorted cmp kx) (d : PG) (hd : pgFromRoots (.leaf kb) (.leaf kx) = .ok d) :
+    ∃ Inv, GenSound cmp fuel kb kx Inv ∧ Inv d .start := by
+  have hmem := specDiffP_mem ol kb kx sb sx
+  have hasc : AscE cmp (specDiffP cmp kb kx) := specDiffP_ascending ol kb kx sb sx
+  let Inv : PG → GenPos → Prop := fun d pos =>
+    match pos with
+    | .start => LeafStr cmp d (specDiffP cmp kb kx)
+    | .at p t => ∃ pre e rest, specDiffP cmp kb kx = pre ++ e :: rest ∧ (p, t) = patchOf e ∧ LeafStr cmp d rest
+    | .done => True
+  refine ⟨Inv, ⟨?_, ?_, ?_⟩, pgFromRoots_leaf kb kx d hd⟩
+  · -- cur
+    rintro d p t ⟨pre, e, rest, hs, hpt, _⟩
+    have hp : p = pointPatch e := congrArg Prod.fst hpt
+    have ht : t = e.type := congrArg Prod.snd hpt
+    have hlev : p.level = 0 := by rw [hp]; rfl
+    have he : DiffSpecP cmp kb kx e := (hmem e).mp (by rw [hs]; simp)
+    refine ⟨⟨fun h => absurd hlev h, fun h => absurd hlev h, fun h => absurd hlev h⟩, ?_, ?_⟩
+    · intro k hk
+      have hk' : cmp k e.key = .eq := by
+        have := (covers_iff_point hlev k).mp hk; rw [hp] at this; exact this
+      have hc := (diffSpecP_at_key ol sb sx k e).mp ⟨he, hk'⟩
+      simp only [Patch.valAt, hlev, beq_self_eq_true, if_true]
+      rw [hp, pointEffect_pointPatch, changeOf_to hc]
+    · intro _
+      have hc := (diffSpecP_at_key ol sb sx e.key e).mp ⟨he, ol.refl _⟩
+      rw [hp, ht]
+      simp only [pointPatch, patchOf, pvalBytes_map]
+      exact hc
+  · -- next
+    intro d pos d' c' hinv hnd hn
+    cases pos with
+    | done => exact absurd rfl hnd
+    | start =>
+      have hs : LeafStr cmp d (specDiffP cmp kb kx) := hinv
+      rcases pgNext_leaf ol.refl fuel d d' _ c' hs hn with ⟨hnil, rfl⟩ | ⟨e, rest, hcons, rfl, hs'⟩
+      · refine ⟨trivial, (by intro p t p' t' h; cases h), ?_⟩
+        intro k _ _
+        apply (diffSpecP_none_at_key ol sb sx k).mp
+        intro ev hev
+        have := (hmem ev).mpr hev
+        rw [hnil] at this; simp at this
+      · refine ⟨⟨[], e, rest, by simpa using hcons, rfl, hs'⟩, (by intro p t p' t' h; cases h), ?_⟩
+        intro k _ h2
+        have hk : cmp k e.key = .lt := by
+          have := h2 (patchOf e).1 (patchOf e).2 rfl
+          simpa [startsAfter, patchOf] using this
+        apply (diffSpecP_none_at_key ol sb sx k).mp
+        intro ev hev
+        have hin := (hmem ev).mpr hev
+        rw [hcons] at hin hasc
+        exact no_event_between ol (pre := []) (rest := e :: rest) (by simpa using hasc) (by simp) (by simpa using hk) ev (by simpa using hin)
+    | «at» p t =>
+      obtain ⟨pre, e, rest, hs, hpt, hstr⟩ := hinv
+      have hp : p = pointPatch e := congrArg Prod.fst hpt
+      have hasc' : AscE cmp ((pre ++ [e]) ++ rest) := by rw [hs] at hasc; simpa using hasc
+      have hpre : ∀ k, cmp e.key k = .lt → ∀ ev ∈ pre ++ [e], cmp ev.key k = .lt := by
+        intro k hk ev hev
+        simp at hev
+        rcases hev with hev | rfl
+        · have h1 : AscE cmp (pre ++ e :: rest) := by rw [← hs]; exact hasc
+          have := (List.pairwise_append.mp h1).2.2 ev hev e (by simp)
+          exact ol.lt_trans _ _ _ this hk
+        · exact hk
+      rcases pgNext_leaf ol.refl fuel d d' rest c' hstr hn with ⟨hnil, rfl⟩ | ⟨e', rest', hcons, rfl, hs'⟩
+      · refine ⟨trivial, (by intro p0 t0 p' t' _ h; cases h), ?_⟩
+        intro k h1 _
+        have hk : cmp e.key k = .lt := by have := h1 p t rfl; rw [hp] at this; exact this
+        apply (diffSpecP_none_at_key ol sb sx k).mp
+        intro ev hev
+        have hin := (hmem ev).mpr hev
+        rw [hs, hnil] at hin
+        have hasc2 : AscE cmp ((pre ++ [e]) ++ []) := by rw [hnil] at hasc'; exact hasc'
+        exact no_event_between ol (pre := pre ++ [e]) (rest := []) hasc2 (hpre k hk) (by simp) ev (by simpa using hin)
+      · refine ⟨⟨pre ++ [e], e', rest', by rw [hs, hcons]; simp, rfl, hs'⟩, ?_, ?_⟩
+        · intro p0 t0 p' t' h0 h'
+          cases h0; cases h'
+          rw [hp]
+          simp only [Patch.before, patchOf, pointPatch, if_true]
+          have h1 : AscE cmp (pre ++ e :: e' :: rest') := by rw [← hcons, ← hs]; exact hasc
+          have := (List.pairwise_append.mp h1).2.1
+          exact (List.pairwise_cons.mp this).1 e' (by simp)
+        · intro k h1 h2
+          have hk : cmp e.key k = .lt := by have := h1 p t rfl; rw [hp] at this; exact this
+          have hk2 : cmp k e'.key = .lt := by
+            have := h2 (patchOf e').1 (patchOf e').2 rfl
+            simpa [startsAfter, patchOf] using this
+          apply (diffSpecP_none_at_key ol sb sx k).mp
+          intro ev hev
+          have hin := (hmem ev).mpr hev
+          rw [hs, hcons] at hin
+          have hasc2 : AscE cmp ((pre ++ [e]) ++ e' :: rest') := by rw [hcons] at hasc'; exact hasc'
+          exact no_event_between ol (pre := pre ++ [e]) (rest := e' :: rest') hasc2 (hpre k hk) (by simpa using hk2) ev (by simpa using hin)
+  · -- split: a point patch is never split
+    rintro d p t d' c' ⟨pre, e, rest, _, hpt, _⟩ hlv _
+    have hp : p = pointPatch e := congrArg Prod.fst hpt
+    exact absurd (by rw [hp]; rfl) hlv
+
+/-- **R2 ∧ R1 instantiated for the leaf-patch-only generator** (proved): for sorted single-leaf trees the
+stream `SendPatches` emits `StreamDenotesMerge` — the target of R1 ∧ R2 is met, with the definitions used
+above, wherever only point patches occur. -/
+theorem stream_denotes_merge_leaf {cmp : Bytes → Bytes → Ordering} (ol : OrdLaws cmp) (collide : Collide) (kb kl kr : List KV)
+    (sb : Sorted cmp kb) (sl : Sorted cmp kl) (sr : Sorted cmp kr)
+    (content : List KV) (ps : List Patch) (cs : List Collision)
+    (h : threeWayMerge cmp collide (.leaf kb) (.leaf kl) (.leaf kr) = .ok (content, ps, cs)) :
+    StreamDenotesMerge cmp collide kb kl kr ps cs := by
+  obtain ⟨hps, _⟩ := threeWayMerge_leaf ol.refl collide kb kl kr content ps cs h
+  have e1 : ps = (sendSpec cmp collide (specDiffP cmp kb kl) (specDiffP cmp kb kr)).1 := congrArg Prod.fst hps
+  have e2 : cs = (sendSpec cmp collide (specDiffP cmp kb kl) (specDiffP cmp kb kr)).2 := congrArg Prod.snd hps
+  obtain ⟨pa, pl⟩ := leaf_patches_asc ol collide sb sl sr
+  obtain ⟨cm, ca⟩ := leaf_merge_collisions ol collide sb sl sr
+  have ht : Tiles cmp ps := by
+    rw [e1]
+    refine ⟨fun p hp => ⟨fun h => absurd (pl p hp) h, fun h => absurd (pl p hp) h, fun h => absurd (pl p hp) h⟩, ?_⟩
+    have hall : ∀ p ∈ (sendSpec cmp collide (specDiffP cmp kb kl) (specDiffP cmp kb kr)).1, p.level = 0 := pl
+    revert pa hall
+    generalize (sendSpec cmp collide (specDiffP cmp kb kl) (specDiffP cmp kb kr)).1 = qs
+    intro pa hall
+    induction qs with
+    | nil => exact List.Pairwise.nil
+    | cons q qs ih =>
+      have hp := List.pairwise_cons.mp pa
+      refine List.pairwise_cons.mpr ⟨?_, ih hp.2 (fun x hx => hall x (by simp [hx]))⟩
+      intro x hx
+      simp only [Patch.before, hall x (by simp [hx]), if_true]
+      exact hp.1 x hx
+  refine ⟨ht, ?_, by rw [e2]; exact cm, by rw [e2]; exact ca⟩
+  intro k
+  have h1 := (apply_tiled_stream ol ps kl sl ht).2 k
+  rw [← h1, e1]
+  exact leaf_merge_lookup ol collide sb sl sr k
 
 /-- **R1 (named hypothesis)**: the generator `PatchGeneratorFromRoots base x` is sound across level
 changes — there is an invariant, holding initially, that is `GenSound`.  Proved only for single-leaf
